@@ -1,36 +1,539 @@
-//! C13 — (stub; to be implemented, see DESIGN.md section 5 and HARNESS.md)
+//! C13 — FromStr: newtypes delegate to the field (value and error unchanged); field-less enums match variant
+//! names ignoring case unless that is ambiguous, then exactly; every other string is a `FromStrError` naming
+//! the enum.
+//!
+//! The oracle lives in the prelude of the generated crate: `rule()` is a reference implementation of the
+//! documented matching rule over the *names* of the variants (a raw identifier's name has no `r#`), and the
+//! checkers enumerate the strings inside the program: exhaustively all strings up to a length bound over the
+//! letters of each name in both cases plus `_ - space #`, every case pattern of every name, one-edit
+//! neighbours, prefixes/suffixes/concatenations, whitespace-padded names and seeded random strings incl.
+//! multi-byte characters. Newtypes are compared with `s.parse::<Inner>().map(N)` incl. the error value.
+use super::core::*;
+use super::proggen::CaseResult;
 use super::progprop::*;
+use serde_json::json;
 
-fn build(_d: &mut Dice) -> GenCase {
-    let mut c = GenCase::new("pub fn run(o: &mut Out) { o.check(\"stub\", true); }".to_string());
-    c.nontrivial = false;
+pub const SIG_RAW: &str = "c13-raw-ident-variant-name";
+pub const SIG_EMPTY: &str = "c13-empty-fields-variant";
+
+const PRELUDE: &str = r##"
+use core::str::FromStr;
+use core::fmt::Debug;
+
+/// Reference implementation of the documented rule: index of the variant `s` parses to.
+pub fn rule(names: &[&str], s: &str) -> Option<usize> {
+    for (i, n) in names.iter().enumerate() {
+        let ambiguous = names.iter().enumerate().any(|(j, m)| j != i && m.eq_ignore_ascii_case(n));
+        let hit = if ambiguous { s == *n } else { s.eq_ignore_ascii_case(n) };
+        if hit { return Some(i); }
+    }
+    None
+}
+
+pub struct Lcg(pub u64);
+impl Lcg {
+    pub fn next(&mut self) -> u64 {
+        self.0 = self.0.wrapping_mul(6364136223846793005).wrapping_add(1442695040888963407);
+        self.0 >> 33
+    }
+    pub fn below(&mut self, n: usize) -> usize { if n == 0 { 0 } else { (self.next() % n as u64) as usize } }
+}
+
+fn all_strings(alpha: &[char], max_len: usize, out: &mut Vec<String>) {
+    let mut level: Vec<String> = vec![String::new()];
+    for _ in 0..max_len {
+        let mut next = Vec::with_capacity(level.len() * alpha.len());
+        for p in &level { for c in alpha { let mut s = p.clone(); s.push(*c); next.push(s); } }
+        out.extend(next.iter().cloned());
+        level = next;
+    }
+}
+
+fn bounded_len(a: usize, cap: usize, max: usize) -> usize {
+    let (mut l, mut total, mut pow) = (0usize, 0usize, 1usize);
+    while l < max {
+        pow = pow.saturating_mul(a);
+        if total + pow > cap { break; }
+        total += pow; l += 1;
+    }
+    l
+}
+
+fn both_cases(names: &[&str]) -> Vec<char> {
+    let mut alpha: Vec<char> = vec![];
+    for n in names { for c in n.chars() { for x in [c.to_ascii_lowercase(), c.to_ascii_uppercase()] { if !alpha.contains(&x) { alpha.push(x); } } } }
+    for c in ['_', '-', ' ', '#'] { if !alpha.contains(&c) { alpha.push(c); } }
+    alpha
+}
+
+/// multi-byte characters whose lower-case form contains no ASCII letter (so "ignoring case" is unambiguous)
+pub const WIDE: [char; 8] = ['é', 'Ä', 'ß', 'σ', 'Σ', '→', '𝒳', 'ǅ'];
+
+pub fn enum_strings(names: &[&str], seed: u64) -> (Vec<String>, usize) {
+    let mut out: Vec<String> = vec![String::new()];
+    // (1) exhaustive: per name over its own letters, and over the letters of all names
+    let mut exhaustive = 1usize;
+    for n in names {
+        let alpha = both_cases(&[*n]);
+        let l = bounded_len(alpha.len(), 6000, 4);
+        let before = out.len();
+        all_strings(&alpha, l, &mut out);
+        exhaustive += out.len() - before;
+    }
+    let alpha = both_cases(names);
+    {
+        let l = bounded_len(alpha.len(), 6000, 4);
+        let before = out.len();
+        all_strings(&alpha, l, &mut out);
+        exhaustive += out.len() - before;
+    }
+    // (2) every case pattern of every name (first 8 letters), also behind `r#` / `R#`
+    for n in names {
+        let chars: Vec<char> = n.chars().collect();
+        let k = chars.len().min(8);
+        for mask in 0u32..(1u32 << k) {
+            let s: String = chars.iter().enumerate().map(|(i, c)| if i < k && (mask >> i) & 1 == 1 { if c.is_ascii_lowercase() { c.to_ascii_uppercase() } else { c.to_ascii_lowercase() } } else { *c }).collect();
+            if mask < 16 { out.push(format!("r#{s}")); out.push(format!("R#{s}")); }
+            out.push(s);
+        }
+    }
+    // (3) one-edit neighbours, prefixes, suffixes, concatenations, padding
+    for n in names {
+        let chars: Vec<char> = n.chars().collect();
+        for i in 0..=chars.len() {
+            out.push(chars[..i].iter().collect());
+            out.push(chars[i..].iter().collect());
+            for c in alpha.iter().chain(WIDE.iter()) {
+                let mut v = chars.clone(); v.insert(i, *c); out.push(v.iter().collect());
+                if i < chars.len() { let mut v = chars.clone(); v[i] = *c; out.push(v.iter().collect()); }
+            }
+            if i < chars.len() { let mut v = chars.clone(); v.remove(i); out.push(v.iter().collect()); }
+        }
+        for pad in [" ", "\t", "\n", "\r\n", "\u{a0}", "\0"] {
+            out.push(format!("{pad}{n}")); out.push(format!("{n}{pad}")); out.push(format!("{pad}{n}{pad}"));
+        }
+        for m in names {
+            out.push(format!("{n}{m}")); out.push(format!("{n} {m}")); out.push(format!("{n}_{m}")); out.push(format!("{n}::{m}"));
+        }
+        out.push(format!("E::{n}")); out.push(format!("\"{n}\"")); out.push(n.repeat(2)); out.push(n.repeat(3));
+    }
+    // (4) seeded random strings up to 24 characters, ASCII of the names and wide characters mixed
+    let mut g = Lcg(seed ^ 0x9E3779B97F4A7C15);
+    let mut pool: Vec<char> = alpha.clone();
+    pool.extend(WIDE.iter().copied());
+    pool.extend(['0', '9', '.', ':', '\'', 'z', 'Z']);
+    for _ in 0..300 {
+        let len = g.below(25);
+        out.push((0..len).map(|_| pool[g.below(pool.len())]).collect());
+    }
+    for _ in 0..200 {
+        // a name with random case and sometimes one foreign character
+        let n = names[g.below(names.len())];
+        let mut v: Vec<char> = n.chars().map(|c| if g.below(2) == 0 { c.to_ascii_uppercase() } else { c.to_ascii_lowercase() }).collect();
+        if g.below(3) == 0 { let at = g.below(v.len() + 1); v.insert(at, pool[g.below(pool.len())]); }
+        out.push(v.iter().collect());
+    }
+    (out, exhaustive)
+}
+
+fn show(names: &[&str], i: Option<usize>) -> String {
+    match i { Some(i) => format!("Ok(variant #{i} `{}`)", names[i]), None => "Err".to_string() }
+}
+
+/// `names`: the variants' names; `idents`: the same as written in the source (raw identifiers keep `r#`).
+pub fn enum_check<E>(o: &mut Out, enum_name: &str, names: &[&str], idents: &[&str], idx: fn(&E) -> usize, seed: u64)
+where E: FromStr<Err = derive_more::FromStrError> {
+    let (strings, exhaustive) = enum_strings(names, seed);
+    let (mut bad, mut bad_raw, mut bad_msg) = (0usize, 0usize, 0usize);
+    let mut judge = |o: &mut Out, what: &str, s: &str| {
+        let exp = rule(names, s);
+        let got: Result<E, derive_more::FromStrError> = s.parse::<E>();
+        let got_idx = got.as_ref().ok().map(idx);
+        if exp != got_idx {
+            // defect model "the `r#` of a raw identifier is taken as part of the name": does it predict this result?
+            if idents != names && rule(idents, s) == got_idx {
+                bad_raw += 1;
+                if bad_raw <= 4 { o.fail(&format!("[r#-model] {what} {s:?}"), &show(names, exp), &show(names, got_idx)); }
+            } else {
+                bad += 1;
+                if bad <= 8 { o.fail(&format!("{what} {s:?}"), &show(names, exp), &show(names, got_idx)); }
+            }
+        }
+        if let Err(e) = &got {
+            let m = e.to_string();
+            if !m.contains(enum_name) {
+                bad_msg += 1;
+                if bad_msg <= 2 { o.fail(&format!("error of parse {s:?} names the enum"), &format!("a message mentioning `{enum_name}`"), &m); }
+            }
+        }
+    };
+    // consequence stated by the property: every variant's own name parses back to that variant
+    for n in names { judge(o, "own name parses back:", n); }
+    for s in &strings { judge(o, "parse", s); }
+    o.put("strings", &strings.len().to_string());
+    o.put("exhaustive", &exhaustive.to_string());
+    o.put("mismatches", &(bad + bad_raw).to_string());
+}
+
+// ---- newtypes -----------------------------------------------------------------------------------------
+
+#[derive(Debug, PartialEq, Clone)]
+pub struct Cx(pub u32);
+#[derive(Debug, PartialEq, Clone)]
+pub struct CxErr { pub input: String, pub at: usize }
+impl FromStr for Cx {
+    type Err = CxErr;
+    fn from_str(s: &str) -> Result<Cx, CxErr> {
+        match s.strip_prefix("cx:") {
+            Some(r) => r.parse::<u32>().map(Cx).map_err(|_| CxErr { input: s.to_string(), at: 3 }),
+            None => Err(CxErr { input: s.to_string(), at: 0 }),
+        }
+    }
+}
+
+pub const BASE: &[&str] = &[
+    "", " ", "0", "-0", "+0", "5", "+5", "-5", "5 ", " 5", "\t5", "5\n", "007", "127", "128", "255", "256", "-128", "-129",
+    "2147483647", "2147483648", "-2147483648", "-2147483649", "99999999999999999999999999999999999999999", "1e3", "1E3", "1.5", "-1.5", ".5", "5.",
+    "NaN", "nan", "inf", "-inf", "infinity", "1e400", "1_000", "0x10", "0b1", "٣", "１", "true", "false", "True", "TRUE", "t", "a", "ab", "é", "𝒳",
+    "\n", "'a'", "127.0.0.1", "127.0.0.1 ", "::1", "256.0.0.1", "1.2.3", "[::1]:80", "cx:7", "cx:", "cx:-1", " cx:7", "cx:7 ", "CX:7",
+];
+
+pub fn newtype_strings(extra: &[&str], seed: u64) -> Vec<String> {
+    let mut out: Vec<String> = BASE.iter().map(|s| s.to_string()).collect();
+    out.extend(extra.iter().map(|s| s.to_string()));
+    for s in BASE.iter().chain(extra.iter()) {
+        for pad in [" ", "\n", "\t", "\u{a0}"] { out.push(format!("{pad}{s}")); out.push(format!("{s}{pad}")); }
+    }
+    let pool: Vec<char> = "0123456789+-._eE xXaAfFtTrRuUlLsSnNiI:[]/c\t\né٣".chars().collect();
+    let mut g = Lcg(seed ^ 0xD1B54A32D192ED03);
+    for _ in 0..500 {
+        let len = g.below(13);
+        out.push((0..len).map(|_| pool[g.below(pool.len())]).collect());
+    }
+    for _ in 0..300 {
+        // digits mostly: many successful parses
+        let len = 1 + g.below(5);
+        let mut s: String = (0..len).map(|_| pool[g.below(10)]).collect();
+        match g.below(6) { 0 => s.insert(0, '-'), 1 => s.insert(0, '+'), 2 => s.push(' '), 3 => s = format!("cx:{s}"), _ => {} }
+        out.push(s);
+    }
+    out
+}
+
+/// `N` must have exactly the field type's error type (checked by the compiler through the bound).
+pub fn newtype_check<N, I>(o: &mut Out, wrap: fn(I) -> N, extra: &[&str], seed: u64)
+where
+    I: FromStr, <I as FromStr>::Err: Debug + PartialEq,
+    N: FromStr<Err = <I as FromStr>::Err> + Debug + PartialEq,
+{
+    let strings = newtype_strings(extra, seed);
+    let (mut bad, mut oks) = (0usize, 0usize);
+    for s in &strings {
+        let exp: Result<N, <I as FromStr>::Err> = s.parse::<I>().map(wrap);
+        let got: Result<N, <I as FromStr>::Err> = s.parse::<N>();
+        let same = match (&exp, &got) {
+            (Ok(a), Ok(b)) => { oks += 1; a == b || format!("{a:?}") == format!("{b:?}") }
+            (Err(a), Err(b)) => a == b && format!("{a:?}") == format!("{b:?}"),
+            _ => false,
+        };
+        if !same {
+            bad += 1;
+            if bad <= 8 { o.fail(&format!("parse {s:?}"), &format!("{exp:?}"), &format!("{got:?}")); }
+        }
+    }
+    o.put("strings", &strings.len().to_string());
+    o.put("ok_parses", &oks.to_string());
+    o.put("mismatches", &bad.to_string());
+}
+"##;
+
+/// base words for variant names; keywords may only be written as raw identifiers
+const BASES: [&str; 14] = ["A", "Ab", "Foo", "Bar", "Baz", "Ok", "Err", "None", "Http2", "Foo_Bar", "X1", "Request", "Io", "Z"];
+const KEYWORDS: [&str; 8] = ["fn", "type", "match", "loop", "Type", "Fn", "move", "dyn"];
+
+fn case_pattern(d: &mut Dice, w: &str) -> String {
+    match d.weighted(&[5, 2, 2, 2]) {
+        0 => w.to_string(),
+        1 => w.to_ascii_uppercase(),
+        2 => w.to_ascii_lowercase(),
+        _ => w.chars().enumerate().map(|(i, c)| if i % 2 == 1 { c.to_ascii_uppercase() } else { c.to_ascii_lowercase() }).collect(),
+    }
+}
+
+fn is_strict_keyword(s: &str) -> bool {
+    // every spelling the generator can produce from KEYWORDS that is a keyword of edition 2021
+    matches!(s, "fn" | "type" | "match" | "loop" | "move" | "dyn")
+}
+
+fn build_enum(d: &mut Dice) -> GenCase {
+    let nv = d.range(1, 6);
+    // (name, written identifier)
+    let mut vars: Vec<(String, String)> = vec![];
+    let mut labels = vec!["kind=enum".to_string()];
+    let want_collision = d.chance(45);
+    let want_raw = d.chance(30);
+    for i in 0..nv {
+        let mut tries = 0;
+        loop {
+            tries += 1;
+            let (name, raw) = if want_collision && i > 0 && d.chance(55) {
+                // another spelling of an earlier name
+                let (prev, _) = vars[d.pick(vars.len())].clone();
+                let n = match d.pick(4) {
+                    0 => prev.to_ascii_uppercase(),
+                    1 => prev.to_ascii_lowercase(),
+                    2 => {
+                        let mut c: Vec<char> = prev.chars().collect();
+                        let k = d.pick(c.len());
+                        c[k] = if c[k].is_ascii_uppercase() { c[k].to_ascii_lowercase() } else { c[k].to_ascii_uppercase() };
+                        c.into_iter().collect()
+                    }
+                    _ => {
+                        let mut c = prev.chars();
+                        c.next().map(|f| f.to_ascii_uppercase().to_string() + &c.as_str().to_ascii_lowercase()).unwrap_or_default()
+                    }
+                };
+                (n, d.chance(10))
+            } else if want_raw && d.chance(45) {
+                { let w = KEYWORDS[d.pick(KEYWORDS.len())]; (case_pattern(d, w), true) }
+            } else {
+                { let w = BASES[d.pick(BASES.len())]; (case_pattern(d, w), d.chance(5)) }
+            };
+            let raw = raw || is_strict_keyword(&name);
+            // `Self`, `self`, `crate`, `super` cannot be raw identifiers; none is producible from the word lists
+            let ok = !vars.iter().any(|(n, _)| *n == name) && !name.is_empty() && !name.starts_with(|c: char| c.is_ascii_digit());
+            if ok {
+                let ident = if raw { format!("r#{name}") } else { name.clone() };
+                vars.push((name, ident));
+                break;
+            }
+            if tries > 6 {
+                let name = format!("V{i}");
+                vars.push((name.clone(), name));
+                break;
+            }
+        }
+    }
+    let has_raw = vars.iter().any(|(n, i)| n != i);
+    let has_collision = vars.iter().enumerate().any(|(i, (n, _))| vars.iter().enumerate().any(|(j, (m, _))| i != j && n.eq_ignore_ascii_case(m)));
+    let raw_collision = vars.iter().enumerate().any(|(i, (n, id))| n != id && vars.iter().enumerate().any(|(j, (m, _))| i != j && n.eq_ignore_ascii_case(m)));
+    // shapes: `V()` / `V {}` are field-less too
+    let mut shapes: Vec<&str> = vec![""; vars.len()];
+    let mut has_empty_shape = false;
+    if d.chance(4) {
+        let k = d.pick(vars.len());
+        shapes[k] = if d.chance(50) { "()" } else { " {}" };
+        has_empty_shape = true;
+    }
+    let (ename, eident) = match d.weighted(&[6, 3, 1]) {
+        0 => ("E".to_string(), "E".to_string()),
+        1 => ("MyEnum".to_string(), "MyEnum".to_string()),
+        _ => ("Type".to_string(), "r#Type".to_string()),
+    };
+    let seed = (d.pick(65536) as u64) << 16 | d.pick(65536) as u64;
+    let decl: String = vars.iter().zip(&shapes).map(|((_, id), sh)| format!("    {id}{sh},\n")).collect();
+    let arms: String = vars.iter().zip(&shapes).enumerate().map(|(i, ((_, id), sh))| format!("{eident}::{id}{} => {i}, ", if sh.is_empty() { "" } else if *sh == "()" { "()" } else { " {}" })).collect();
+    let names: String = vars.iter().map(|(n, _)| format!("{n:?}, ")).collect();
+    let idents: String = vars.iter().map(|(_, i)| format!("{i:?}, ")).collect();
+    let body = format!(
+        "#[derive(derive_more::FromStr, Debug, Clone, Copy, PartialEq)]\npub enum {eident} {{\n{decl}}}\nconst NAMES: &[&str] = &[{names}];\nconst IDENTS: &[&str] = &[{idents}];\nfn idx(v: &{eident}) -> usize {{ match v {{ {arms}}} }}\npub fn run(o: &mut Out) {{\n    enum_check::<{eident}>(o, {ename:?}, NAMES, IDENTS, idx, {seed});\n}}\n"
+    );
+    labels.push(format!("variants={nv}"));
+    if has_collision {
+        labels.push("has_case_collision_group".into());
+    }
+    if has_raw {
+        labels.push("has_raw_variant".into());
+    }
+    if raw_collision {
+        labels.push("raw_variant_in_collision_group".into());
+    }
+    if has_empty_shape {
+        labels.push("empty_tuple_or_brace_variant".into());
+    }
+    if ename == "Type" {
+        labels.push("raw_enum_name".into());
+    }
+    if vars.iter().any(|(n, _)| n.len() <= 3) {
+        labels.push("name_within_exhaustive_length".into());
+    }
+    if vars.iter().any(|(n, _)| n.contains('_') || n.chars().any(|c| c.is_ascii_digit())) {
+        labels.push("name_with_digit_or_underscore".into());
+    }
+    let mut c = GenCase::new(body);
+    c.nontrivial = has_collision || has_raw;
+    c.labels = labels;
+    c.meta = json!({"kind": "enum", "has_raw": has_raw, "has_empty_shape": has_empty_shape, "names": vars.iter().map(|v| v.0.clone()).collect::<Vec<_>>(), "idents": vars.iter().map(|v| v.1.clone()).collect::<Vec<_>>()});
     c
 }
+
+/// (type, extra strings worth trying, label)
+const INNERS: [(&str, &[&str], &str); 14] = [
+    ("i32", &["-2147483648", "+2147483647"], "i32"),
+    ("u8", &["255", "+255", "-0", "256"], "u8"),
+    ("i64", &["9223372036854775807", "9223372036854775808"], "i64"),
+    ("u128", &["340282366920938463463374607431768211455", "340282366920938463463374607431768211456"], "u128"),
+    ("f64", &["1e308", "1e309", "-0.0", "+.5e-3", "Infinity", "1.7976931348623157e308"], "f64"),
+    ("f32", &["3.4028236e38", "1e39", "-NaN"], "f32"),
+    ("bool", &["true", "false", "true ", "1"], "bool"),
+    ("char", &["a", "é", "ab", "", "𝒳"], "char"),
+    ("String", &["anything at all", " padded "], "String"),
+    ("std::net::IpAddr", &["10.0.0.1", "::ffff:1.2.3.4", "1.2.3.4.5", "01.2.3.4"], "IpAddr"),
+    ("std::net::SocketAddr", &["1.2.3.4:80", "[::1]:8080", "1.2.3.4"], "SocketAddr"),
+    ("std::num::NonZeroU8", &["0", "1", "255", "256"], "NonZeroU8"),
+    ("std::path::PathBuf", &["a/b", ""], "PathBuf"),
+    ("Cx", &["cx:0", "cx:4294967295", "cx:4294967296", "cx: 7", "cx:7\n"], "custom"),
+];
+
+fn build_newtype(d: &mut Dice) -> GenCase {
+    let (ty, extra, tlabel) = INNERS[d.weighted(&[6, 4, 2, 2, 4, 2, 3, 3, 3, 3, 2, 2, 2, 8])];
+    let named = d.chance(45);
+    let generic = d.weighted(&[6, 2, 1, 1, 1]);
+    let fname = if named { *d.choose(&["v", "inner", "r#type", "x"]) } else { "" };
+    let sname = match d.weighted(&[6, 3, 1]) {
+        0 => "N",
+        1 => "MyInt",
+        _ => "r#Type",
+    };
+    let fty = if generic == 0 { ty } else { "T" };
+    let (gen_decl, wh, inst) = match generic {
+        0 => ("", "", String::new()),
+        1 => ("<T>", "", format!("<{ty}>")),
+        2 => ("<T: Clone>", "", format!("<{ty}>")),
+        3 => ("<T>", " where T: core::fmt::Debug", format!("<{ty}>")),
+        _ => ("<T, const K: usize>", "", format!("<{ty}, 3>")),
+    };
+    let def = if named {
+        format!("pub struct {sname}{gen_decl}{wh} {{ {fname}: {fty} }}")
+    } else if wh.is_empty() {
+        format!("pub struct {sname}{gen_decl}({fty});")
+    } else {
+        format!("pub struct {sname}{gen_decl}({fty}){wh};")
+    };
+    let wrap = if named { format!("|x| {sname} {{ {fname}: x }}") } else { format!("|x| {sname}(x)") };
+    let extra_src: String = extra.iter().map(|s| format!("{s:?}, ")).collect();
+    let seed = (d.pick(65536) as u64) << 16 | d.pick(65536) as u64;
+    let body = format!(
+        "#[derive(derive_more::FromStr, Debug, PartialEq)]\n{def}\npub fn run(o: &mut Out) {{\n    newtype_check::<{sname}{inst}, {ty}>(o, {wrap}, &[{extra_src}], {seed});\n}}\n"
+    );
+    let mut labels = vec!["kind=newtype".to_string(), format!("inner={tlabel}"), if named { "named_field".to_string() } else { "tuple_field".to_string() }];
+    if generic > 0 {
+        labels.push("generic_newtype".into());
+    }
+    if generic == 4 {
+        labels.push("const_generic_newtype".into());
+    }
+    if fname == "r#type" || sname == "r#Type" {
+        labels.push("raw_ident_in_newtype".into());
+    }
+    let mut c = GenCase::new(body);
+    c.nontrivial = !matches!(tlabel, "String" | "PathBuf");
+    c.labels = labels;
+    c.meta = json!({"kind": "newtype", "inner": tlabel});
+    c
+}
+
+fn build(d: &mut Dice) -> GenCase {
+    if d.chance(30) {
+        build_newtype(d)
+    } else {
+        build_enum(d)
+    }
+}
+
+fn enum_case(name: &str, variants: &[(&str, &str)], shapes: &[&str]) -> GenCase {
+    let decl: String = variants.iter().zip(shapes).map(|((_, id), sh)| format!("    {id}{sh},\n")).collect();
+    let arms: String = variants.iter().zip(shapes).enumerate().map(|(i, ((_, id), sh))| format!("{name}::{id}{sh} => {i}, ")).collect();
+    let names: String = variants.iter().map(|(n, _)| format!("{n:?}, ")).collect();
+    let idents: String = variants.iter().map(|(_, i)| format!("{i:?}, ")).collect();
+    let body = format!(
+        "#[derive(derive_more::FromStr, Debug, Clone, Copy, PartialEq)]\npub enum {name} {{\n{decl}}}\nconst NAMES: &[&str] = &[{names}];\nconst IDENTS: &[&str] = &[{idents}];\nfn idx(v: &{name}) -> usize {{ match v {{ {arms}}} }}\npub fn run(o: &mut Out) {{\n    enum_check::<{name}>(o, {name:?}, NAMES, IDENTS, idx, 1);\n}}\n"
+    );
+    let has_raw = variants.iter().any(|(n, i)| n != i);
+    let has_empty_shape = shapes.iter().any(|s| !s.is_empty());
+    let mut c = GenCase::new(body);
+    c.labels = vec!["kind=enum".into(), "fixed".into()];
+    c.meta = json!({"kind": "enum", "has_raw": has_raw, "has_empty_shape": has_empty_shape});
+    c
+}
+
+/// the repo's own example, the smallest instances of each class
+fn fixed() -> Vec<GenCase> {
+    vec![
+        enum_case("EnumNoFields", &[("Foo", "Foo"), ("Bar", "Bar"), ("Baz", "Baz"), ("BaZ", "BaZ")], &["", "", "", ""]),
+        enum_case("E", &[("A", "A")], &[""]),
+        enum_case("E", &[("a", "a"), ("A", "A")], &["", ""]),
+        enum_case("E", &[("Err", "Err"), ("Ok", "Ok"), ("None", "None")], &["", "", ""]),
+        enum_case("E", &[("fn", "r#fn")], &[""]),
+        enum_case("E", &[("fn", "r#fn"), ("Fn", "Fn")], &["", ""]),
+        enum_case("E", &[("Foo", "r#Foo"), ("foo", "foo"), ("FOO", "FOO")], &["", "", ""]),
+        enum_case("E", &[("A", "A"), ("B", "B")], &["()", ""]),
+        enum_case("E", &[("A", "A"), ("B", "B")], &["", " {}"]),
+    ]
+}
+
+fn classify(c: &GenCase, r: &CaseResult, f: &Finding) -> Option<String> {
+    if !c.expect_compile || c.meta["kind"] != "enum" {
+        return None;
+    }
+    if !r.compiled {
+        // `V()` / `V {}`: the expansion writes the bare path `E::V`, which is a constructor function (E0308 in the
+        // match) resp. not a value at all (E0533)
+        if c.meta["has_empty_shape"].as_bool() == Some(true) && !r.errors.is_empty() {
+            let all = r.errors.iter().all(|e| {
+                e.code.as_deref() == Some("E0533") || (e.code.as_deref() == Some("E0308") && (e.rendered.contains("enum constructor") || e.rendered.contains("fn() ->")))
+            });
+            if all {
+                return Some(SIG_EMPTY.into());
+            }
+        }
+        return None;
+    }
+    // the program itself established that the observed result is what "the `r#` belongs to the name" predicts
+    if c.meta["has_raw"].as_bool() == Some(true) && f.summary.starts_with("run-time oracle failed: [r#-model] ") {
+        return Some(SIG_RAW.into());
+    }
+    None
+}
+
+const RULE: &str = "field-less enums (1..6 variants; ASCII names from 22 words in 4 case patterns, groups differing only in case, raw identifiers incl. keywords, names with digits/underscores, raw enum name, `V()`/`V {}` variants) and newtypes (tuple/named/raw field, 5 generic forms) over i32,u8,i64,u128,f64,f32,bool,char,String,IpAddr,SocketAddr,NonZeroU8,PathBuf and a custom type with a custom error echoing its input. Enum strings, generated inside the program: exhaustively all strings up to length L<=4 over the letters of each name in both cases plus `_ - space #` (L = largest with <=6000 strings; same over the letters of all names), all 2^min(len,8) case patterns of every name (also behind r#/R#), all one-edit neighbours over that alphabet and 8 multi-byte characters, prefixes, suffixes, concatenations, padded names, 500 seeded random strings <=24 chars; oracle: reference implementation of the documented rule over the unraw names, Err must be derive_more::FromStrError (type-checked) whose Display mentions the enum's name; every own name must parse back. Newtype strings: 64 base strings + per-type extras, each padded 8 ways, 800 seeded random strings; oracle: s.parse::<Inner>().map(N) equal incl. the error value (type identity checked by the compiler). Non-trivial = enum with a case-collision group or a raw identifier (strings within one edit of every name are always included), newtype whose inner type can fail; distinct by program text";
 
 pub fn prop() -> DiceProp {
     DiceProp {
         crate_name: "gen_c13",
-        prelude: String::new(),
+        prelude: PRELUDE.to_string(),
         crate_attrs: String::new(),
         nightly: false,
         check_only: false,
-        ndice: 64,
-        quick: (10, 1),
-        thorough: (10, 1),
+        ndice: 96,
+        quick: (1500, 1),
+        thorough: (4000, 5),
         build,
-        fixed: no_fixed,
-        classify: no_classify,
-        rule: "stub".into(),
-        assumptions: vec![],
-        floors: vec![],
+        fixed,
+        classify,
+        rule: RULE.into(),
+        assumptions: vec![
+            "variant names are ASCII; strings contain no character whose lower-case form has an ASCII letter other than ASCII letters themselves (Kelvin sign, dotted capital I are excluded), so `ignoring case` is unambiguous".into(),
+            "std's FromStr impls of the installed toolchain are the reference for newtypes".into(),
+        ],
+        floors: vec![
+            ("kind=enum".into(), 0.5),
+            ("kind=newtype".into(), 0.2),
+            ("has_case_collision_group".into(), 0.15),
+            ("has_raw_variant".into(), 0.1),
+            ("raw_variant_in_collision_group".into(), 0.02),
+            ("name_within_exhaustive_length".into(), 0.3),
+            ("inner=custom".into(), 0.03),
+            ("generic_newtype".into(), 0.05),
+        ],
         shards: 0,
     }
 }
 
-pub fn run(ctx: &super::core::Ctx) -> super::core::Report {
+pub fn run(ctx: &Ctx) -> Report {
     super::progprop::run(&prop(), ctx)
 }
 
-pub fn replay(ctx: &super::core::Ctx, case: &serde_json::Value) -> super::core::Report {
+pub fn replay(ctx: &Ctx, case: &serde_json::Value) -> Report {
     super::progprop::replay(&prop(), ctx, case)
 }
